@@ -549,8 +549,15 @@ class Exchange:
                     prep.update(status="FAILURE", errorCode=pout.split(":", 1)[1] if ":" in pout else "ERROR_IN_ORDER", instruction=pins)
                 else:
                     nb = self._new_bet(mid, pins, {"customerStrategyRef": b["strategy_ref"]})
+                    frac = plan.get("match_on_place", 0.0)
+                    if frac and i in plan.get("match_instructions", (0,)):
+                        # the replacement is matched the instant it is placed (part or all of it)
+                        mx = round(nb["size"] * frac, 2)
+                        nb["matched"], nb["avp"], nb["remaining"] = mx, nb["price"], round(nb["size"] - mx, 2)
+                        if nb["remaining"] == 0:
+                            nb["complete"] = True
                     changed.append(nb)
-                    prep.update(status="SUCCESS", betId=nb["bet_id"], placedDate=ms_iso(nb["placed"]), averagePriceMatched=0.0, sizeMatched=0.0, orderStatus="EXECUTABLE", instruction=pins)
+                    prep.update(status="SUCCESS", betId=nb["bet_id"], placedDate=ms_iso(nb["placed"]), averagePriceMatched=nb["avp"], sizeMatched=nb["matched"], orderStatus="EXECUTION_COMPLETE" if nb["complete"] else "EXECUTABLE", instruction=pins)
                 status = "SUCCESS" if prep["status"] == "SUCCESS" else "FAILURE"
             elif out.startswith("FAILURE"):
                 code = out.split(":", 1)[1] if ":" in out else "ERROR_IN_ORDER"
